@@ -29,6 +29,25 @@ func main() {
 		cmdExternals()
 	case "baseline-all":
 		cmdBaselineAll(os.Args[2:])
+	case "writes":
+		// debug: field-level write set of a function
+		setup("")
+		for _, fn := range selectFuncs(os.Args[2]) {
+			fw := funcFieldWrites(fn, map[*ssa.Function]bool{})
+			var ns []string
+			for n := range fw {
+				ns = append(ns, n)
+			}
+			sort.Strings(ns)
+			for _, n := range ns {
+				var fs []string
+				for f := range fw[n].fields {
+					fs = append(fs, f)
+				}
+				sort.Strings(fs)
+				fmt.Printf("%s any=%v %s\n", n, fw[n].any, strings.Join(fs, " "))
+			}
+		}
 	default:
 		fmt.Fprintln(os.Stderr, "unknown command")
 		os.Exit(2)
@@ -40,6 +59,19 @@ func setup(repo string) {
 		id := h.Name
 		if j := strings.Index(id[6:], "$"); j >= 0 {
 			id = id[:6+j]
+		}
+		// field-level write set of the callee: a cell that is field i of struct K keeps its value
+		// when no store in the callee's transitive closure can reach that field
+		if fw := havocFieldWrites[id]; fw != nil && addr.Op == "mkref" && addr.Args[1].Op == "pfld" {
+			if j := strings.Index(h.Name, "$M$"); j >= 0 {
+				arr := h.Name[j+1:]
+				if k, ok := addr.Args[1].Args[1].IntVal(); ok {
+					fs := fw[arr]
+					if fs == nil || (!fs.any && !fs.fields[fmt.Sprintf("%s#%d", addr.Args[1].Name, k)]) {
+						return true
+					}
+				}
+			}
 		}
 		reach := havocReach[id]
 		if reach == nil {
